@@ -310,3 +310,5 @@ def spec(self, inputs, kwargs):
                "mixin setter" if ok else f"`{ast.unparse(node)} = ...` writes a parameter's data outside the connection's property setters: "
                f"an assignment through this path is not masked on a lateral connection", P.loc(f, node), node)
     ctx.assume("F.linear, F.unfold, F.fold, torch.matmul and einops implement their documented semantics")
+    # ---------------- (e) the advertised shapes and synapse wiring every connection inherits (tables shared with C06)
+    ctx.import_clauses("C06", {"C06.t"}, "C05.e", pick=lambda s: s.startswith("Connection."), minimum=10)
